@@ -260,9 +260,15 @@ Proof.
   intros He Hx. destruct betas as [|b0 bs]; [exact Hx|]. eapply vge_vnn; [exact He|]. apply fista_ge. discriminate.
 Qed.
 (* ------------------------------------------------------------------ active set *)
+Lemma iter_idx_last {A} (f : nat -> A -> A) : forall n k s, iter_idx (S n) k f s = f (k + n)%nat (iter_idx n k f s).
+Proof.
+  induction n; intros k s; [simpl; rewrite Nat.add_0_r; reflexivity|].
+  change (iter_idx (S (S n)) k f s) with (iter_idx (S n) (S k) f (f k s)). rewrite IHn.
+  replace (S k + n)%nat with (k + S n)%nat by lia. reflexivity.
+Qed.
 Lemma active_set_ge support x n : (0 < n)%nat -> vnn (active_set Rops support x n).
 Proof.
-  intros H. destruct n; [lia|]. unfold active_set. rewrite iter_n_last. apply Forall_map_any. intros y.
+  intros H. destruct n; [lia|]. unfold active_set. rewrite iter_idx_last. apply Forall_map_any. intros y.
   pose proof (clip_min_ge 0 y). rops. lra.
 Qed.
 Lemma active_set_nn support x n : vnn x -> vnn (active_set Rops support x n).
